@@ -63,8 +63,81 @@ def _workdir():
     return d
 
 
+GENERATIONS = {
+    # programs of one family differ in single digits only, so that the stored files have the same size; the file times are set to one
+    # fixed instant after every write (several writes within one tick of a coarse file-system clock)
+    "constant": ["export function f(int a) -> int { return a * 2 + 1; }", "export function f(int a) -> int { return a * 3 + 5; }", "export function f(int a) -> int { return a * 2 + 1; }",
+                 "export function f(int a) -> int { return a * 7 + 1; }"],
+    "global and loop": ["int g;\nexport function f(int n) -> int { int s = 0; for (int i = 0; i < n; ++i) { s += i * 2; } g = s; return g + 1; }",
+                        "int g;\nexport function f(int n) -> int { int s = 0; for (int i = 0; i < n; ++i) { s += i * 4; } g = s; return g + 3; }",
+                        "int g;\nexport function f(int n) -> int { int s = 1; for (int i = 0; i < n; ++i) { s += i * 4; } g = s; return g + 3; }"],
+    "operator": ["export function f(float a, float b) -> float { return a + b; }", "export function f(float a, float b) -> float { return a - b; }", "export function f(float a, float b) -> float { return a * b; }"],
+    "callee": ["function h(int x) -> int { return x + 1; }\nexport function f(int a) -> int { return h(a) * 2; }", "function h(int x) -> int { return x + 2; }\nexport function f(int a) -> int { return h(a) * 2; }",
+               "function h(int x) -> int { return x + 2; }\nexport function f(int a) -> int { return h(a) * 3; }"],
+}
+FIXED_TIME_NS = 1_600_000_000 * 10 ** 9
+
+
+def _generations(inst, res):
+    """several generations of one module stored under ONE file name and loaded after each write, in this process: what is loaded is
+    what was stored last (listing, tables, and results on a few arguments)"""
+    from nsl import LinearIR, VM
+    srcs = GENERATIONS[inst["case"]]
+    optimize = bool(inst.get("optimize"))
+    tmp = tempfile.mkdtemp(prefix="verif-c17g-")
+    res["sample"] = dict(case=inst["case"], optimize=optimize, generations=len(srcs))
+    try:
+        path = os.path.join(tmp, "gen.nslir")
+        sizes = []
+        for k, src in enumerate(srcs):
+            res["paths"] += 1
+            mem = joint.compile_source(src, optimize=optimize)
+            with open(path, "wb") as f:
+                pickle.dump(mem.IRModule, f)
+            if inst.get("fixed_time", True):
+                os.utime(path, ns=(FIXED_TIME_NS, FIXED_TIME_NS))
+            sizes.append(os.path.getsize(path))
+            how = ("by its name with the suffix", path) if k % 2 else ("by its name without the suffix", path[:-6])
+            try:
+                mod = LinearIR.FilesystemModuleLoader().Load(how[1])
+                want, got = describe(mem.IRModule), describe(mod)
+            except Exception as e:  # noqa: BLE001
+                res["violations"].append(dict(what=f"generation {k} of '{inst['case']}' stored under the same file name cannot be loaded / listed: {type(e).__name__}: {str(e)[:100]}",
+                                              replay=dict(harness="C17", inst=inst, kind="generations")))
+                break
+            diffs = [x for x in want if want[x] != got[x]]
+            if not diffs:
+                # and it runs like the module just compiled
+                lk = LinearIR.Linker()
+                lk.AddModule(mod)
+                prog = lk.Link()
+                f = parse(src).funcs[-1]
+                for base in (1, 4):
+                    args = {n: (base + j if t == "int" else base + j + 0.5) for j, (t, n) in enumerate(f.params)}
+                    a, _ = joint.vm_run(joint.link(mem), "f", dict(args))
+                    b, _ = joint.vm_run(prog, "f", dict(args))
+                    if a != b:
+                        diffs.append(f"f({args}) = {b} instead of {a}")
+            if diffs:
+                res["violations"].append(dict(what=f"generation {k} of '{inst['case']}' was stored under the file name of generation {k - 1} (same size: {len(set(sizes)) == 1}, same file time) and an earlier "
+                                                   f"generation is loaded: differs in {diffs[:3]}", replay=dict(harness="C17", inst=inst, kind="generations")))
+                break
+        res["nontrivial"] = True
+        res.setdefault("counters", {})["generations_same_size"] = int(len(set(sizes)) == 1)
+    except joint.Rejected as e:
+        res["errors"].append(f"generation program rejected: {e}")
+    finally:
+        shutil.rmtree(tmp, ignore_errors=True)
+    return res
+
+
 def run_instance(inst):
     from nsl import LinearIR
+    if inst.get("kind") == "generations":
+        r = dict(paths=0, queries=0, unsat=0, sat=0, undecided=0, cut=0, violations=[], errors=[], nontrivial=False, known=[], solver_time=0.0)
+        r["key"] = repr(sorted(inst.items()))
+        r["funcs"] = FUNCS
+        return _generations(inst, r)
     src = inst["source"]
     optimize = bool(inst.get("optimize"))
     res = dict(paths=0, queries=0, unsat=0, sat=0, undecided=0, cut=0, violations=[], errors=[], nontrivial=False, known=[], solver_time=0.0)
@@ -144,6 +217,9 @@ FUNCS = ["nslc.py (child process)", "pickle.dump(Result.IRModule)", "nsl.LinearI
 def replay(spec):
     from nsl import LinearIR
     inst = spec["inst"]
+    if inst.get("kind") == "generations":
+        r = run_instance(inst)
+        return dict(violations=[v["what"] for v in r["violations"]][:2]) if r["violations"] else None
     src = inst["source"]
     optimize = bool(inst.get("optimize"))
     tmp = tempfile.mkdtemp(prefix="verif-c17-")
@@ -238,6 +314,10 @@ def run(tier, seed, only=None):
     for it, vm in fam:
         for opt in (False, True):
             insts.append(famcheck.pack(it, optimize=opt, vm=vm))
+    for case in GENERATIONS:
+        for opt in (False, True):
+            insts.append(dict(kind="generations", case=case, optimize=opt, fixed_time=True))
+        insts.append(dict(kind="generations", case=case, optimize=False, fixed_time=False))
     try:
         results = core.run_pool("vlib.harness.C17", "run_instance", insts)
     finally:
